@@ -255,7 +255,60 @@ def rule_conserve(c, prog):
         c.ok(R, "key:inner_insert")    # no inner_insert calls by that name: the MIR rule above carries the clause
 
 
+def rule_builder(c, prog, R="C10.builder"):
+    """InstanceBuilder: the by-value `with_x` and the in-place `add_x` / `set_x` have the same effect"""
+    c.rule(R, "InstanceBuilder: each consuming method `with_x(self, ..) -> Self` leaves the builder in the state its in-place sibling `add_x` / `set_x(&mut self, ..)` leaves it in (both evaluated symbolically on a builder that already holds properties and children): in particular `with_children` / `with_properties` append to what is there, they do not replace it")
+    from sa import sym, wire
+    IB = "rbx_dom_weak::instance::InstanceBuilder"
+    adt = prog.adts.get(IB)
+    if adt is None:
+        raise core.AnchorMissing("InstanceBuilder not found")
+    fields = [(f["name"], f["ty"]) for f in adt["variants"][0]["fields"]]
+
+    def self_term():
+        out = []
+        for n, ty in fields:
+            if ty.startswith("alloc::vec::Vec<"):
+                out.append((n, ("vec", (("seg", ("dom", "old:" + n), ("in", "old:" + n), None),))))
+            else:
+                out.append((n, ("fld", ("in", "self"), n)))
+        return ("st", IB, tuple(out))
+
+    def final_state(f):
+        env = {f.params[0]["lid"]: self_term()}
+        for i, prm in enumerate(f.params[1:]):
+            for b in core.walk(prm):
+                if b.get("k") == "Binding":
+                    env[b["lid"]] = ("in", f"arg{i}")
+        _, val, _ = wire.run_region(prog, f.body, env, [], depth=4)
+        byval = not (f.params[0].get("ty") or "").startswith("&")
+        return val if byval else env[f.params[0]["lid"]]
+    meths = {f.path.rsplit("::", 1)[-1]: f for f in prog.lib_fns() if f.path.startswith(IB + "::") and f.body is not None and f.params}
+    n = 0
+    for name, f in sorted(meths.items()):
+        m = re.match(r"^with_(\w+)$", name)
+        if not m:
+            continue
+        sib = next((meths[p + m.group(1)] for p in ("add_", "set_") if p + m.group(1) in meths), None)
+        if sib is None or len(sib.params) != len(f.params):
+            continue
+        n += 1
+        inst = f"builder:{name}~{sib.path.rsplit('::', 1)[-1]}"
+        try:
+            a, b = final_state(f), final_state(sib)
+        except sym.Unsupported as e:
+            c.not_decided.append(f"{name}: outside the symbolic model ({e})")
+            continue
+        if a == b:
+            c.ok(R, inst)
+        else:
+            diff = [fn_ for (fn_, x), (_, y) in zip(a[2], b[2]) if x != y] if a[0] == b[0] == "st" else ["(result)"]
+            c.violation(R, f"differs|{name}|{','.join(diff)}", f"InstanceBuilder::{name} and {sib.path.rsplit('::', 1)[-1]} leave `{', '.join(diff)}` in different states when the builder already holds entries: one of them replaces what the other appends to, so a builder assembled with the consuming method loses the children / properties added before the call", f.sp, instance=inst)
+    c.floor(R, n, 3, "with_/add_ sibling pairs of InstanceBuilder")
+
+
 def run(c, prog):
+    rule_builder(c, prog)
     rule_order(c, prog)
     rule_frame(c, prog)
     rule_conserve(c, prog)
